@@ -8,7 +8,10 @@ not desired, replace desired routes that differ) with per-route netlink failures
 retry of `Apply`.
 
 Per-interface rescans (`ifacesToRescan`, `resyncIface`) are modelled (a failed route listing keeps the
-interface queued, as repaired in /repo a84de56).
+interface queued, as repaired in /repo a84de56).  Interface knowledge is the three maps of the code
+(`ifaceNameToIndex`, `ifaceIndexToName`, `ifaceIndexToState`) with `OnIfaceStateChanged` and the three passes of
+`refreshAllIfaceStates` as written, so that links that appear, disappear, are renamed or re-use an index WITHOUT a
+callback (learned only by a resync) are covered.
 Not modelled: grace periods, static ARP, conntrack-owner tracking, multi-path routes, IPv6,
 TOS/priority in the route key, netlink EINTR retries; the interface monitor and the kernel are assumed
 to report the same interface states.  The kernel-route payload other than
@@ -27,6 +30,15 @@ def erase (m : Map α) (k : String) : Map α := m.filter (fun p => p.1 != k)
 def set (m : Map α) (k : String) (v : α) : Map α := (k, v) :: m.erase k
 def keys (m : Map α) : List String := m.map (·.1)
 end Map
+
+/-- Maps keyed by interface index. -/
+abbrev NMap (α : Type) := List (Nat × α)
+namespace NMap
+variable {α : Type}
+def get (m : NMap α) (k : Nat) : Option α := List.lookup k m
+def erase (m : NMap α) (k : Nat) : NMap α := m.filter (fun p => p.1 != k)
+def set (m : NMap α) (k : Nat) (v : α) : NMap α := (k, v) :: m.erase k
+end NMap
 
 def sortS (l : List String) : List String := l.mergeSort (fun a b => a ≤ b)
 def sAdd (s : List String) (x : String) : List String := if x ∈ s then s else s ++ [x]
@@ -75,15 +87,17 @@ def Policy.routeIsOurs (p : Policy) (iface : String) (proto : Nat) : Bool :=
 structure RT where
   pol : Policy
   defProto : Nat
-  ifaces : Map Iface := []          -- ifaceNameToIndex / ifaceIndexToState
+  n2i : Map Nat := []               -- ifaceNameToIndex
+  i2n : NMap String := []           -- ifaceIndexToName
+  i2s : NMap Bool := []             -- ifaceIndexToState (true = up, false = down, absent = not present)
   wants : List Want := []           -- ifaceToRoutes
+  des : Map KRoute := []            -- kernelRoutes.Desired(): a CACHE, recalculated per destination on the code's triggers
   dp : Map KRoute := []             -- kernelRoutes.Dataplane()
   fullResync : Bool := true
   rescan : List String := []        -- ifacesToRescan
 deriving Repr, Inhabited
 
-def RT.ifaceName (t : RT) (idx : Nat) : Option String :=
-  (t.ifaces.find? (fun p => p.2.idx == idx)).map (·.1)
+def RT.ifaceName (t : RT) (idx : Nat) : Option String := t.i2n.get idx
 
 /-- `routeIsOurs`: routes on unknown interfaces are ignored. -/
 def RT.owns (t : RT) (r : KRoute) : Bool :=
@@ -99,48 +113,93 @@ def better (a b : Want × Nat) : Bool :=
 def RT.best (t : RT) (cidr : String) : Option (Want × Nat) :=
   let cands := t.wants.filterMap (fun w =>
     if w.cidr == cidr then
-      match t.ifaces.get w.iface with
-      | some i => if i.up then some (w, i.idx) else none
+      match t.n2i.get w.iface with
+      | some idx => if t.i2s.get idx == some true then some (w, idx) else none
       | none => none
     else none)
   cands.foldl (fun acc c => match acc with
     | none => some c
     | some b => if better c b then some c else some b) none
 
-/-- `kernelRoutes.Desired().Get`. -/
-def RT.desired (t : RT) (cidr : String) : Option KRoute :=
+/-- The kernel route for the winning target of a CIDR (what `recalculateDesiredKernelRoute` stores). -/
+def RT.bestRoute (t : RT) (cidr : String) : Option KRoute :=
   (t.best cidr).map (fun p => ⟨p.2, p.1.gw, t.defProto, p.1.kind⟩)
 
-def RT.desiredKeys (t : RT) : List String :=
-  ((t.wants.map (·.cidr)).eraseDups).filter (fun c => (t.desired c).isSome)
+/-- `recalculateDesiredKernelRoute(cidr)`: refresh the cached desired route of one destination. -/
+def RT.recalc (t : RT) (cidr : String) : RT :=
+  { t with des := match t.bestRoute cidr with | some r => t.des.set cidr r | none => t.des.erase cidr }
 
-/-- `SetRoutes` for one class/interface. -/
+/-- `kernelRoutes.Desired().Get`. -/
+def RT.desired (t : RT) (cidr : String) : Option KRoute := t.des.get cidr
+
+def RT.desiredKeys (t : RT) : List String := t.des.keys
+
+/-- `SetRoutes` for one class/interface: the destinations that were removed and all the new ones are recalculated. -/
 def RT.setRoutes (t : RT) (cls : Nat) (iface : String) (ws : List Want) : RT :=
-  { t with wants := t.wants.filter (fun w => !(w.cls == cls && w.iface == iface)) ++ ws.eraseDups }
+  let old := (t.wants.filter (fun w => w.cls == cls && w.iface == iface)).map (·.cidr)
+  let new := ws.eraseDups
+  let t := { t with wants := t.wants.filter (fun w => !(w.cls == cls && w.iface == iface)) ++ new }
+  (old.filter (fun c => !(new.map (·.cidr)).contains c) ++ new.map (·.cidr)).foldl RT.recalc t
 
 /-- `RouteUpdate`. -/
 def RT.routeUpdate (t : RT) (w : Want) : RT :=
-  { t with wants := t.wants.filter (fun x => !(x.cls == w.cls && x.iface == w.iface && x.cidr == w.cidr)) ++ [w] }
+  ({ t with wants := t.wants.filter (fun x => !(x.cls == w.cls && x.iface == w.iface && x.cidr == w.cidr)) ++ [w] } : RT).recalc w.cidr
 
-/-- `RouteRemove`. -/
+/-- `RouteRemove` (nothing happens, in particular no recalculation, if there is no such target). -/
 def RT.routeRemove (t : RT) (cls : Nat) (iface cidr : String) : RT :=
-  { t with wants := t.wants.filter (fun x => !(x.cls == cls && x.iface == iface && x.cidr == cidr)) }
+  if t.wants.any (fun x => x.cls == cls && x.iface == iface && x.cidr == cidr) then
+    ({ t with wants := t.wants.filter (fun x => !(x.cls == cls && x.iface == iface && x.cidr == cidr)) } : RT).recalc cidr
+  else t
 
-/-- `OnIfaceStateChanged`. -/
-def RT.setIface (t : RT) (name : String) (i : Option Iface) : RT :=
-  match i with
-  | some i =>
-    { t with ifaces := t.ifaces.set name i, rescan := if i.up then sAdd t.rescan name else t.rescan }
-  | none => { t with ifaces := t.ifaces.erase name, rescan := sErase t.rescan name }
+/-- `recheckRouteOwnershipsByIface(name)`. -/
+def RT.recheck (t : RT) (name : String) : RT :=
+  (((t.wants.filter (fun w => w.iface == name)).map (·.cidr)).eraseDups).foldl RT.recalc t
 
-/-- `refreshAllIfaceStates`: every link whose state differs from what we recorded is reported through
-`OnIfaceStateChanged` (which queues it for a rescan when it is up); interfaces that disappeared are dropped. -/
+/-- `OnIfaceStateChanged(name, idx, state)`; `st = none` is `StateNotPresent` (then the index that is cleaned up
+is the one recorded for the name, not the argument). -/
+def RT.onIface (t : RT) (name : String) (idx : Nat) (st : Option Bool) : RT :=
+  let t : RT := match st with
+    | none =>
+      let old := (t.n2i.get name).getD 0
+      { t with i2n := t.i2n.erase old, i2s := t.i2s.erase old, n2i := t.n2i.erase name, rescan := sErase t.rescan name }
+    | some up =>
+      let i2n := match t.n2i.get name with
+        | some o => if o != idx then t.i2n.erase o else t.i2n   -- renumbered: only the name of the old index is cleaned up
+        | none => t.i2n
+      { t with i2s := t.i2s.set idx up, n2i := t.n2i.set name idx, i2n := i2n.set idx name,
+               rescan := if up then sAdd t.rescan name else t.rescan }
+  t.recheck name
+
+/-- First pass of `refreshAllIfaceStates`, first check: the link's name is known with another index. -/
+def RT.dropRenumbered (t : RT) (n : String) (idx : Nat) : RT :=
+  match t.n2i.get n with
+  | some o => if o != idx then t.onIface n o none else t
+  | none => t
+
+/-- ... second check: the link's index is known under another name. -/
+def RT.dropRenamed (t : RT) (n : String) (idx : Nat) : RT :=
+  match t.i2n.get idx with
+  | some on => if on != n then t.onIface on idx none else t
+  | none => t
+
+/-- First pass of `refreshAllIfaceStates` for one link: simulate the deletion of a renumbered or renamed interface. -/
+def RT.refreshPass1 (kif : Map Iface) (t : RT) (n : String) : RT :=
+  match kif.get n with
+  | none => t
+  | some ki => (t.dropRenumbered n ki.idx).dropRenamed n ki.idx
+
+/-- Second pass for one link: report the link only if its state differs from the state recorded FOR ITS INDEX. -/
+def RT.refreshPass2 (kif : Map Iface) (t : RT) (n : String) : RT :=
+  match kif.get n with
+  | none => t
+  | some ki => if t.i2s.get ki.idx == some ki.up then t else t.onIface n ki.idx (some ki.up)
+
+/-- `refreshAllIfaceStates` (links visited in name order). -/
 def RT.refreshAll (t : RT) (kif : Map Iface) : RT :=
-  let t := (sortS kif.keys.eraseDups).foldl (fun t n =>
-    match kif.get n with
-    | some ki => if t.ifaces.get n == some ki then t else t.setIface n (some ki)
-    | none => t) t
-  (sortS t.ifaces.keys.eraseDups).foldl (fun t n => if kif.has n then t else t.setIface n none) t
+  let links := sortS kif.keys.eraseDups
+  let t := links.foldl (RT.refreshPass1 kif) t
+  let t := links.foldl (RT.refreshPass2 kif) t
+  (sortS t.n2i.keys.eraseDups).foldl (fun t n => if kif.has n then t else t.onIface n 0 none) t
 
 abbrev Kernel := Map KRoute
 
@@ -156,6 +215,7 @@ structure W where
   t : RT
   K : Kernel := []
   kif : Map Iface := []     -- the kernel's interfaces (what LinkList / LinkByName return)
+  pend : List (String × Nat × Option Bool) := []   -- interface-monitor callbacks not delivered yet (in order)
   f : Fails := {}
 deriving Repr, Inhabited
 
@@ -175,9 +235,9 @@ def W.resyncIface (w : W) (name : String) : W × Bool :=
   if w.f.linkByName then ({ w with f := { w.f with linkByName := false } }, true)
   else
     match w.kif.get name with
-    | none => ({ w with t := w.t.setIface name none }, false)
+    | none => ({ w with t := w.t.onIface name 0 none }, false)
     | some ki =>
-      let t := w.t.setIface name (some ki)
+      let t := w.t.onIface name ki.idx (some ki.up)
       if w.f.routeList then
         -- the listing failed: an error (the interface stays queued) unless the interface is down in the kernel
         ({ w with t := t, f := { w.f with routeList := false } }, ki.up)
@@ -243,20 +303,45 @@ def W.apply (w : W) : W × Bool :=
 
 /-! ### The operations the driver replays (the histories the theorems quantify over) -/
 
-/-- An interface event in the kernel, reported to Felix (`OnIfaceStateChanged`): `st = some up?` or `none` =
-the interface is gone.  The kernel drops the routes of an interface that goes down or away, and those on
-the old index of an interface that is re-created with another index. -/
-def W.ifaceEvent (w : W) (n : String) (i : Nat) (st : Option Bool) : W :=
-  let v : Option Iface := match st with | none => none | some up => some ⟨i, up⟩
-  let kif := match v with | some x => w.kif.set n x | none => w.kif.erase n
-  let K := if st == some true then w.K else w.K.filter (fun p => p.2.ifindex != i)
+/-- A link change in the kernel: `st = some up?` creates/updates link `n` with index `i`, `none` removes it.
+The kernel drops the routes of a link that goes down or away, those on the old index of a link that is re-created
+with another index, and those of another link whose index is taken over. -/
+def W.linkChange (w : W) (n : String) (i : Nat) (st : Option Bool) : W :=
+  -- another link currently holding index i disappears
+  let other := w.kif.filter (fun p => p.1 != n && p.2.idx == i)
+  let kif := w.kif.filter (fun p => !(p.1 != n && p.2.idx == i))
+  let K := if other.isEmpty then w.K else w.K.filter (fun p => p.2.ifindex != i)
+  let K := if st == some true then K else K.filter (fun p => p.2.ifindex != i)
   let K := match w.kif.get n with
     | some old => if old.idx != i then K.filter (fun p => p.2.ifindex != old.idx) else K
     | none => K
-  { w with kif := kif, K := K, t := w.t.setIface n v }
+  let kif : Map Iface := match st with | some up => Map.set kif n ⟨i, up⟩ | none => Map.erase kif n
+  { w with kif := kif, K := K }
+
+/-- The callbacks the interface monitor sends for that change, in order: a deletion for a link that lost its
+index to the new one, a deletion for the old incarnation of a re-created link, then the new state. -/
+def W.monitorCallbacks (w : W) (n : String) (i : Nat) (st : Option Bool) : List (String × Nat × Option Bool) :=
+  ((w.kif.filter (fun p => p.1 != n && p.2.idx == i)).map (fun p => (p.1, i, (none : Option Bool)))) ++
+  (match w.kif.get n with
+    | some old => if old.idx != i then [(n, old.idx, none)] else []
+    | none => []) ++
+  [(n, i, st)]
+
+/-- Deliver all pending callbacks. -/
+def W.flush (w : W) : W :=
+  { w with t := w.pend.foldl (fun t c => t.onIface c.1 c.2.1 c.2.2) w.t, pend := [] }
+
+/-- A link change whose callbacks are delayed (Felix can learn it earlier only through a resync). -/
+def W.linkEvent (w : W) (n : String) (i : Nat) (st : Option Bool) : W :=
+  { w.linkChange n i st with pend := w.pend ++ w.monitorCallbacks n i st }
+
+/-- A link change reported at once (after any callbacks that were still pending). -/
+def W.ifaceEvent (w : W) (n : String) (i : Nat) (st : Option Bool) : W := (w.linkEvent n i st).flush
 
 inductive Op where
-  | iface (n : String) (idx : Nat) (st : Option Bool)
+  | iface (n : String) (idx : Nat) (st : Option Bool)   -- link change + monitor callbacks
+  | link (n : String) (idx : Nat) (st : Option Bool)    -- link change whose callbacks are delayed
+  | flush                                               -- the delayed callbacks arrive
   | kroute (c : String) (r : KRoute)        -- somebody else programs a route
   | kdel (c : String)                       -- somebody else deletes a route
   | set (cls : Nat) (ifc : String) (ws : List Want)
@@ -269,6 +354,8 @@ deriving Repr
 /-- One operation; for `apply` also whether it returned an error. -/
 def W.stepOp (w : W) : Op → W × Option Bool
   | .iface n i st => (w.ifaceEvent n i st, none)
+  | .link n i st => (w.linkEvent n i st, none)
+  | .flush => (w.flush, none)
   | .kroute c r => ({ w with K := w.K.set c r }, none)
   | .kdel c => ({ w with K := w.K.erase c }, none)
   | .set cls ifc ws => ({ w with t := w.t.setRoutes cls ifc ws }, none)
